@@ -687,6 +687,41 @@ def below_band_rule(ctx, repo):
                 n += 1
                 if out != 1.0 and bad is None:
                     bad = (g, table[fx][consts.get('event_column', 0)], a, out)
+    # the same for every event of the SCORING table, tabulated in the factor table or not, through the whole of calculate_factor:
+    # below the first band no factor row is needed, so a missing row must not turn into an error
+    try:
+        table_rows = repo.const(ATH, '_scoring_table')
+        all_methods = {q.split('.')[-1]: _fold.FuncConst(f, menv) for q, f in agm.functions.items()
+                       if q.startswith('AgeGrader.') or q.startswith('AthlonsAgeGrader.')}
+        for q, f in agm.functions.items():
+            if q.startswith('AthlonsAgeGrader.'):
+                all_methods[q.split('.')[-1]] = _fold.FuncConst(f, menv)
+        bad2, n2 = None, 0
+        for row in table_rows:
+            g, ev = row.get('gender'), row.get('event_code')
+            for a in (1, int(first_band) // 2, int(first_band) - 1):
+                me = _fold.ObjConst(dict(consts, _data=data), all_methods)
+                try:
+                    out = _fold.Folder().call(_fold.FuncConst(cf, menv), [me, g, a, ev], {})
+                except _fold._Raise as ex:
+                    out = 'raises %s' % ex.name
+                except _fold.Unfoldable as e:
+                    raise
+                except Exception as e:
+                    out = 'raises %s' % type(e).__name__
+                n2 += 1
+                if out != 1.0 and bad2 is None:
+                    bad2 = (g, ev, a, out)
+        ctx.count('(scored event, age below the first band) calls of calculate_factor folded', n2)
+        if bad2:
+            ctx.finding('R12', '%s::AthlonsAgeGrader.calculate_factor::age below the first masters band needs a factor row' % AGE, AGE, cf.lineno,
+                        'calculate_factor(%r, %r, %r) %s instead of returning 1.0: the row of the event is looked up before the age is seen to be below '
+                        'the first masters band (%s), so a scored event without published factors cannot be scored for a young athlete whose age is given'
+                        % (bad2[0], bad2[2], bad2[1], bad2[3], first_band), {'gender': bad2[0], 'event': bad2[1], 'age': bad2[2]})
+        elif n2:
+            ctx.ok('R12', 'calculate_factor returns 1.0 below the first band for all %d (scored event, age) calls, factor row or not' % n2)
+    except _fold.Unfoldable as e:
+        ctx.info('R12: calculate_factor is not foldable as a whole (%s); events without a factor row not decided' % e)
     ctx.count('(gender, row, age below the first band) combinations folded', n)
     if bad:
         ctx.finding('R12', '%s::AthlonsAgeGrader.calculate_factor::age below the first masters band is adjusted' % AGE, AGE, cf.lineno,
